@@ -319,6 +319,7 @@ type Machine struct {
 	faultHit      bool
 	shortReads    bool
 	shortTaken    bool
+	script        []byte // concrete source bytes delivered next (vTapeScript)
 	readLens      []int
 	tapePos       int
 	rewound       bool
@@ -455,6 +456,7 @@ func (m *Machine) resetPath(prefix []int) {
 	m.faultHit = false
 	m.shortReads = false
 	m.shortTaken = false
+	m.script = nil
 	m.readLens = nil
 	m.tapePos, m.rewound = 0, false
 	m.outputs = nil
